@@ -506,6 +506,17 @@ pub fn write_fields(args: &Args) -> i32 {
     0
 }
 
+/// CPU time (user + system) of this process in ms, from /proc/self/stat (10 ms ticks): the time
+/// criterion must not depend on how loaded the machine is
+fn cpu_ms() -> u64 {
+    let s = std::fs::read_to_string("/proc/self/stat").unwrap_or_default();
+    // fields after the parenthesised command name; utime and stime are the 14th and 15th overall
+    let rest = s.rsplit_once(')').map(|x| x.1).unwrap_or("");
+    let f: Vec<&str> = rest.split_whitespace().collect();
+    let t = |i: usize| f.get(i).and_then(|x| x.parse::<u64>().ok()).unwrap_or(0);
+    (t(11) + t(12)) * 10
+}
+
 /// child: reads scripts {"seed":si,"faults":[[f,cls],..]} (1-based, as TLC prints them) on stdin
 pub fn child(args: &Args) -> i32 {
     crate::alloc::set_cap(args.num("cap_mb", 768) as usize * 1024 * 1024);
@@ -525,12 +536,14 @@ pub fn child(args: &Args) -> i32 {
         crate::alloc::reset_peak();
         let base = crate::alloc::live();
         let t0 = std::time::Instant::now();
+        let c0 = cpu_ms();
         let r = catch(|| exercise(&sd[si].fmt, &bytes));
         let ms = t0.elapsed().as_millis() as u64;
+        let cpu = cpu_ms().saturating_sub(c0);
         let peak = crate::alloc::peak().saturating_sub(base);
         let res = match r {
-            Ok(()) => json!({"id": id, "outcome": "ok", "ms": ms, "peak": peak, "size": bytes.len()}),
-            Err(p) => json!({"id": id, "outcome": "panic", "msg": p, "ms": ms, "peak": peak, "size": bytes.len()}),
+            Ok(()) => json!({"id": id, "outcome": "ok", "ms": ms, "cpu_ms": cpu, "peak": peak, "size": bytes.len()}),
+            Err(p) => json!({"id": id, "outcome": "panic", "msg": p, "ms": ms, "cpu_ms": cpu, "peak": peak, "size": bytes.len()}),
         };
         let mut o = stdout.lock();
         writeln!(o, "DONE {}", res).unwrap();
@@ -645,10 +658,10 @@ pub fn run(args: &Args) -> i32 {
         let outcome = r["outcome"].as_str().unwrap_or("?");
         let key = match outcome {
             "ok" => {
-                // resource proportionality: memory <= 64 x size + 64 MB, time <= 2 s + 1 ms / KB
+                // resource proportionality: memory <= 64 x size + 64 MB, CPU time <= 3 s + 1 ms / KB
                 let size = r["size"].as_u64().unwrap_or(1);
                 if r["peak"].as_u64().unwrap_or(0) > 64 * size + 64 * 1024 * 1024 { Some(format!("memory:out-of-proportion:{}", seed_fmt(sc))) }
-                else if r["ms"].as_u64().unwrap_or(0) > 3000 + size / 1024 { Some("time:out-of-proportion".to_string()) }
+                else if r["cpu_ms"].as_u64().unwrap_or(0) > 3000 + size / 1024 { Some("time:out-of-proportion".to_string()) }
                 else { None }
             }
             "panic" => Some(panic_key(r["msg"].as_str().unwrap_or(""))),
